@@ -87,3 +87,171 @@ fn choose_spec(n: usize, npeers: usize) {
 fn c13_rarest_first_end_game_3x2() {
     choose_spec(3, 2);
 }
+
+/// `np` peers with arbitrary choke/interest/optimistic flags; at most one carries the
+/// optimistic flag (the invariant change_conn_state maintains: it clears all flags before
+/// setting a new one).
+fn peers_for_rotation(s: &mut Session, np: usize) {
+    let mut optimistic_seen = false;
+    let mut k = 0;
+    while k < np {
+        let mut p = fresh_peer(1);
+        p.am_choked = kani::any();
+        p.interested = kani::any();
+        p.optimistic_unchoke = kani::any();
+        if p.optimistic_unchoke {
+            kani::assume(!optimistic_seen);
+            optimistic_seen = true;
+        }
+        s.peers.insert(String::from(ADDRS[k]), p);
+        k += 1;
+    }
+}
+
+fn regular_unchoked(s: &Session, np: usize) -> usize {
+    let mut c = 0;
+    let mut k = 0;
+    while k < np {
+        let p = &s.peers[&String::from(ADDRS[k])];
+        if !p.am_choked && !p.optimistic_unchoke {
+            c += 1;
+        }
+        k += 1;
+    }
+    c
+}
+
+fn unchoked_num_spec(np: usize) {
+    let mut s = mk_session(1);
+    peers_for_rotation(&mut s, np);
+    let got = s.unchoked_num();
+    assert!(got == regular_unchoked(&s, np), "slots in use = regularly unchoked peers");
+    kani::cover!(got == np - 1, "all but one peer hold regular slots");
+    kani::cover!(got == 0, "no slot in use");
+    std::mem::forget(s);
+}
+
+// @prop C14
+// @fn Session::unchoked_num
+// @bound 3 peers, every combination of (am_choked, interested, optimistic_unchoke) flags with at most one optimistic flag
+// @outside more than 3 (quick) / 12 (thorough) peers
+// @desc the number handed to the bitfield handler as "slots in use" equals the number of regularly (non-optimistically) unchoked peers, so a new peer is unchoked only while fewer than ten regular slots are taken
+#[kani::proof]
+#[kani::unwind(5)]
+fn c14_unchoked_num_counts_regular_slots_3() {
+    unchoked_num_spec(3);
+}
+
+// @prop C14
+// @tier thorough
+// @fn Session::unchoked_num
+// @bound 12 peers (more than the ten slots), every flag combination with at most one optimistic flag
+// @desc as c14_unchoked_num_counts_regular_slots_3 with 12 peers
+#[kani::proof]
+#[kani::unwind(14)]
+fn c14_unchoked_num_counts_regular_slots_12() {
+    unchoked_num_spec(12);
+}
+
+fn rotation_policy(np: usize) {
+    let mut s = mk_session(1);
+    peers_for_rotation(&mut s, np);
+    // rates in map order, any values (ties included)
+    let mut rates: Vec<(String, u32)> = Vec::with_capacity(np);
+    let mut rate_of = [0u32; 12];
+    let mut before = [false; 12];
+    let mut k = 0;
+    while k < np {
+        let r: u32 = kani::any();
+        rate_of[k] = r;
+        rates.push((String::from(ADDRS[k]), r));
+        before[k] = s.peers[&String::from(ADDRS[k])].am_choked;
+        k += 1;
+    }
+    // the caller picks the new optimistic peer among choked + interested peers (or none)
+    let mut new_optimistic: Vec<String> = Vec::new();
+    let pick: usize = kani::any();
+    if pick < np {
+        let p = &s.peers[&String::from(ADDRS[pick])];
+        kani::assume(p.am_choked && p.interested);
+        new_optimistic.push(String::from(ADDRS[pick]));
+    }
+    let cmd = s.change_conn_state(&mut rates, &new_optimistic).expect("all peers are known");
+    let map = match &cmd {
+        BroadCmd::SendOwnState { am_choked_map } => am_choked_map,
+        _ => panic!("rotation must broadcast SendOwnState"),
+    };
+    let mut regular = 0; // unchoked without the optimistic flag
+    let mut optimistic = 0; // unchoked with the optimistic flag
+    let mut holders = 0; // unchoked, interested, not the peer picked optimistically in this rotation
+    let mut worst_holder: Option<u32> = None;
+    let mut k = 0;
+    while k < np {
+        let a = String::from(ADDRS[k]);
+        let p = &s.peers[&a];
+        if !p.am_choked && p.optimistic_unchoke {
+            optimistic += 1;
+        }
+        if !p.am_choked && !p.optimistic_unchoke {
+            regular += 1;
+            assert!(p.interested, "every regular slot belongs to a peer that declared interest");
+        }
+        if !p.am_choked && p.interested && pick != k {
+            holders += 1;
+            worst_holder = match worst_holder {
+                Some(w) if w <= rate_of[k] => Some(w),
+                _ => Some(rate_of[k]),
+            };
+        }
+        if !p.interested && pick != k {
+            assert!(p.am_choked, "peers that lost interest are choked");
+        }
+        // messages correspond exactly to state changes
+        match map.get(&a) {
+            Some(v) => assert!(*v == p.am_choked && (before[k] != p.am_choked || pick == k), "a Choke/Unchoke is sent only for a change, with the new state"),
+            None => assert!(before[k] == p.am_choked, "every change of state is announced to that peer"),
+        }
+        k += 1;
+    }
+    assert!(regular <= MAX_UNCHOKED, "at most ten regular slots");
+    assert!(optimistic <= 1, "at most one optimistic unchoke");
+    assert!(holders <= MAX_UNCHOKED, "at most ten slot holders");
+    // no interested choked peer is strictly better than a slot holder
+    let mut k = 0;
+    while k < np {
+        let p = &s.peers[&String::from(ADDRS[k])];
+        if p.am_choked && p.interested {
+            assert!(holders == MAX_UNCHOKED, "an interested peer stays choked only when all ten slots are taken");
+            if let Some(w) = worst_holder {
+                assert!(rate_of[k] <= w, "no interested choked peer has a strictly better rate than a slot holder");
+            }
+        }
+        k += 1;
+    }
+    kani::cover!(np <= 10 || holders == MAX_UNCHOKED, "all ten slots taken (when there are enough peers)");
+    kani::cover!(optimistic == 1, "an optimistic unchoke exists");
+    std::mem::forget(cmd);
+    std::mem::forget(s);
+}
+
+// @prop C14
+// @tier thorough
+// @fn Session::change_conn_state
+// @bound 12 peers (so the ten-slot limit binds), every flag combination satisfying the slot invariant, every rate vector in u32^12 incl. ties, every admissible optimistic pick or none
+// @outside more than 12 peers; the rate measurement itself
+// @desc after a rotation: <= 10 regular + <= 1 optimistic unchoked; every regular slot holder is interested; uninterested peers are choked; an interested peer stays choked only if all slots are taken by peers with rates >= its own; the broadcast map holds exactly the peers whose state changed, with the new state
+#[kani::proof]
+#[kani::unwind(16)]
+fn c14_rotation_policy_12_peers() {
+    rotation_policy(12);
+}
+
+// @prop C14
+// @fn Session::change_conn_state
+// @bound 4 peers (slot limit not binding), every flag combination, every rate vector, every admissible optimistic pick or none
+// @desc as c14_rotation_policy_12_peers on 4 peers (quick tier)
+#[kani::proof]
+#[kani::unwind(8)]
+fn c14_rotation_policy_4_peers() {
+    rotation_policy(4);
+}
